@@ -37,6 +37,7 @@ type c02FlagsCase struct {
 }
 
 func c02FlagsOne(a vh.Args, o *vh.Oracle, r *vh.Result, c *c02FlagsCase) error {
+	r.Running(c)
 	if o == nil {
 		return nil
 	}
